@@ -173,6 +173,9 @@ func TestC10Params(t *testing.T) {
 type ProberCase struct {
 	Threshold int      `json:"threshold"`
 	Answers   []string `json:"answers"` // ok | fail (500) | drop (connection closed)
+	// EarlyStop: the probe has an initial delay of one second and is stopped after 200 ms
+	// (the process was stopped or restarted before its first probe): nothing may be probed or reported later
+	EarlyStop bool `json:"early_stop,omitempty"`
 }
 
 type cbRec struct {
@@ -213,7 +216,11 @@ func checkProber(c ProberCase) pbt.Verdict {
 	defer srv.Close()
 	host, port, _ := net.SplitHostPort(strings.TrimPrefix(srv.URL, "http://"))
 	var cbs []cbRec
-	pr, err := health.New("t", health.Probe{HttpGet: &health.HttpProbe{Host: host, Port: port, Path: "/", Scheme: "http"}, PeriodSeconds: 1, TimeoutSeconds: 1, FailureThreshold: c.Threshold},
+	delay := 0
+	if c.EarlyStop {
+		delay = 1
+	}
+	pr, err := health.New("t", health.Probe{HttpGet: &health.HttpProbe{Host: host, Port: port, Path: "/", Scheme: "http"}, InitialDelay: delay, PeriodSeconds: 1, TimeoutSeconds: 1, FailureThreshold: c.Threshold},
 		func(ok, fatal bool, _ string) {
 			mu.Lock()
 			cbs = append(cbs, cbRec{ok, fatal})
@@ -224,6 +231,20 @@ func checkProber(c ProberCase) pbt.Verdict {
 		return v
 	}
 	pr.Start()
+	if c.EarlyStop {
+		time.Sleep(200 * time.Millisecond)
+		pr.Stop()
+		time.Sleep(2300 * time.Millisecond)
+		pr.Stop() // the process end stops the probes once more
+		mu.Lock()
+		defer mu.Unlock()
+		if served > 0 || len(cbs) > 0 {
+			v.Violations = append(v.Violations, fmt.Sprintf("the probe was stopped 200 ms after its start (initial delay 1 s) and still sent %d requests and reported %d outcomes afterwards", served, len(cbs)))
+		}
+		v.NonTrivial = true
+		v.Labels = append(v.Labels, "stopped-before-first-probe")
+		return v
+	}
 	deadline := time.Now().Add(time.Duration(len(c.Answers)+4) * 1300 * time.Millisecond)
 	for time.Now().Before(deadline) {
 		mu.Lock()
@@ -272,6 +293,7 @@ func genProber(t *rapid.T) ProberCase {
 	for i := 0; i < n; i++ {
 		c.Answers = append(c.Answers, pbt.Pick(t, []string{"ok", "fail", "fail"}))
 	}
+	c.EarlyStop = pbt.Pct(t, 20)
 	return c
 }
 
